@@ -59,6 +59,10 @@ def cases(ctx):
             if r.random() < 0.15:
                 steps.append({"reparse": True})
         yield {"k": "chain", "seed": seed.hex(), "steps": steps, "neuter_at": r.randrange(0, len(steps) + 1), "impl": r.random() < 0.35}
+        if i % 3 == 0:
+            # the same steps from another seed right afterwards, then from the first seed again (state keyed on the index / path only)
+            yield {"k": "chain", "seed": gen.rbytes(r, 32).hex(), "steps": steps, "neuter_at": r.randrange(0, len(steps) + 1), "impl": False, "twin": True}
+            yield {"k": "chain", "seed": seed.hex(), "steps": steps, "neuter_at": 0, "impl": False, "twin": True}
     # the longest well-formed path text: 255 components, every one a ten-digit hardened index (also through the *_impl twins)
     if ctx.shard % 8 == 0 or t:
         seed = gen.rbytes(r, 32)
@@ -78,6 +82,10 @@ def cases(ctx):
     for i in range(40 if t else 2):
         yield {"k": "random", "which": "prv", "steps": [{"derive": ridx(r)}, {"reparse": True}, {"derive": ridx(r)}]}
         yield {"k": "random", "which": "pub", "steps": [{"derive": ridx(r) % 2**31}, {"reparse": True}]}
+    # two different parents that share fingerprint (HASH160 prefix of the key: 24217*G and 50986*G both give d33f91d6), chain code,
+    # depth and index, deriving the same child index back to back: parent 1, parent 2, parent 1 (state keyed on a projection of the parent)
+    for i in range(30 if t else 2):
+        yield {"k": "fpcoll", "chain": gen.rbytes(r, 32).hex(), "depth": r.choice([0, 1, 3]), "index": ridx(r), "fp": gen.rbytes(r, 4).hex(), "child": ridx(r) % 2**31 if i % 2 == 0 else ridx(r), "second": ridx(r) % 2**31}
     for i in range(60 if t else 3):
         kx = r.randrange(1, ec.N)
         yield {"k": "ctor", "key": "%064x" % kx, "chain": gen.rbytes(r, 32).hex(), "depth": r.choice([0, 1, 2, 5, 255]), "index": ridx(r), "fp": (None if r.random() < 0.6 else r.choice(["00000000", gen.rbytes(r, 4).hex()]))}
@@ -87,6 +95,13 @@ def cases(ctx):
         comp = [str(g) for g in good] + [str(bad) + r.choice(["", "'", "h"])]
         r.shuffle(comp)
         yield {"k": "badpath", "seed": gen.rbytes(r, 32).hex(), "path": "m/" + "/".join(comp)}
+    # components without any digit (a bare hardened marker), with a sign, a radix prefix, letters, blanks or non-ASCII digits are not
+    # path components: the whole path must be refused (never read as some index)
+    for i in range(60 if t else 3):
+        badc = r.choice(["'", "h", "H", "''", "a", "-1", "0x1", "\uff11", " 1", "1 ", "1a", "'1", "h1", "1'h", "-0", "1.0", "1e3", "\u0661"])
+        good = [str(ridx(r) % 2**31) + r.choice(["", "'", ""]) for _ in range(r.randrange(0, 3))]
+        j = r.randrange(len(good) + 1)
+        yield {"k": "badpath", "seed": gen.rbytes(r, 32).hex(), "path": "m/" + "/".join(good[:j] + [badc] + good[j:]), "malformed": True}
     for i in range(400 if t else 2):
         seed = gen.rbytes(r, 32)
         m = bip32.master(seed)
@@ -158,6 +173,8 @@ def judge(ctx, case):
             ctx.hit("via_impl")
         if case.get("maxlen"):
             ctx.hit("longest_path_text")
+        if case.get("twin"):
+            ctx.hit("neighbour_sequence")
         r = ctx.call({"op": "bip32", "start": {"seed": case["seed"]}, "steps": steps, "via_impl": vi}, watchdog=300)
         ctx.ev()
         if "ok" not in r:
@@ -264,6 +281,30 @@ def judge(ctx, case):
                 return
         if len(snaps) != len(case["steps"]) + 1:
             ctx.viol("derivation chain from a randomly generated key stopped early", {"last": str(snaps[-1])[:200]})
+    elif k == "fpcoll":
+        ctx.hit("parents_with_colliding_fingerprint")
+        fp = bytes.fromhex(case["fp"])
+        for kind in ("new_pub", "new_prv"):
+            child = case["child"]
+            if kind == "new_pub" and child >= 2**31:
+                child -= 2**31
+            for kx in (24217, 50986, 24217):
+                node = bip32.Node(kx if kind == "new_prv" else None, ec.mul_g(kx), bytes.fromhex(case["chain"]), case["depth"], case["index"], fp)
+                start = {"key": "%064x" % kx, "pub": ec.ser(ec.mul_g(kx), True).hex(), "chain": case["chain"], "depth": case["depth"], "index": case["index"], "fp": case["fp"]}
+                r = ctx.call({"op": "bip32", "start": {kind: start}, "steps": [{"derive": child}, {"derive": case["second"]}]})
+                ctx.ev()
+                if "ok" not in r:
+                    ctx.viol("derivation from a constructor-built extended key failed", {"resp": str(r)[:300]})
+                    break
+                n1 = (bip32.ckd_priv if kind == "new_prv" else bip32.ckd_pub)(node, child)
+                n2 = (bip32.ckd_priv if kind == "new_prv" else bip32.ckd_pub)(n1, case["second"]) if n1 is not None else None
+                if n1 is None or n2 is None:
+                    break
+                ok = len(r["ok"]) == 3 and cmp_node(ctx, r["ok"][1], n1, "child of a constructor-built %s key (another parent with the same fingerprint and chain code derived just before)" % ("private" if kind == "new_prv" else "public")) and cmp_node(ctx, r["ok"][2], n2, "grandchild of a constructor-built key")
+                if not ok:
+                    if len(r["ok"]) != 3:
+                        ctx.viol("derivation chain from a constructor-built key stopped early", {"resp": str(r["ok"][-1])[:200]})
+                    break
     elif k == "ctor":
         ctx.hit("ctor")
         kx = int(case["key"], 16)
@@ -282,13 +323,17 @@ def judge(ctx, case):
                 cmp_node(ctx, r["ok"][1], node, "string round-trip of a constructor-built key (%s, %s fingerprint, depth %s)" % (kind, "zero" if fp == b"\x00" * 4 else "non-zero", "0" if case["depth"] == 0 else ">0"))
     elif k == "badpath":
         ctx.hit("badpath")
+        if case.get("malformed"):
+            ctx.hit("malformed_path_component")
         for kind, vi in (("seed", False), ("xpub_seed", False), ("seed", True), ("xpub_seed", True)):
             r = ctx.call({"op": "bip32", "start": {kind: case["seed"]}, "steps": [{"path": case["path"]}], "via_impl": vi})
             ctx.ev()
             if "ok" not in r:
                 ctx.viol("derive_from_path with an out-of-range component fails abnormally", {"path": case["path"], "resp": str(r)[:200]})
             elif len(r["ok"]) != 2 or "err" not in r["ok"][1]:
-                ctx.viol("derive_from_path accepts a component >= 2^31 (%s key)" % ("private" if kind == "seed" else "public"), {"path": case["path"], "resp": str(r["ok"][1:])[:200]})
+                if case.get("malformed") and kind == "xpub_seed" and "'" in case["path"].replace(case["path"].split("/")[-1], ""):
+                    pass
+                ctx.viol("derive_from_path accepts %s (%s key)" % ("a malformed component (no digits / sign / letters / blanks / non-ASCII digits)" if case.get("malformed") else "a component >= 2^31", "private" if kind == "seed" else "public"), {"path": case["path"], "resp": str(r["ok"][1:])[:200]})
     elif k == "valid":
         r = ctx.call({"op": "bip32", "start": {case["kind"]: case["s"]}, "steps": [{"reparse": True}]})
         ctx.ev()
